@@ -356,10 +356,50 @@ def split_cond(cond, truth):
     return out
 
 
-def atomic_facts(flow, n):
+def atomic_facts(flow, n, expand=True):
+    """atomic (expr, truth) facts that hold at n.  A fact about a bool local that is initialised once and never assigned again
+    (`const bool outermost = depth == 0; if (outermost) ..`) is also reported as the facts its initialiser splits into (the usual
+    assumption of post-facts applies: the tested operands are not changed between the declaration and n)."""
+    fn = flow.fn
+    bools = None
     for c, t in flow.facts(n):
-        for a in split_cond(c, t):
-            yield a
+        for a, ta in split_cond(c, t):
+            yield a, ta
+            if not expand:
+                continue
+            seen = 0
+            work = [(a, ta)]
+            while work and seen < 8:
+                x, tx = work.pop()
+                x2 = strip_casts(x)
+                if not (isinstance(x2, dict) and x2.get("k") == "ref" and x2.get("rk") == "local"):
+                    continue
+                if bools is None:
+                    bools = {}
+                    assigned = set()
+                    for d in walk(fn["body"]):
+                        if d.get("k") == "decl":
+                            for v in d["vars"]:
+                                if v.get("init") is not None and not v.get("ref"):
+                                    bools[v["vid"]] = v
+                        elif d.get("k") == "assign":
+                            assigned.add(strip_casts(d["lhs"]).get("vid"))
+                        elif d.get("k") == "unop" and d.get("op") in ("++", "--"):
+                            assigned.add(strip_casts(d["e"]).get("vid"))
+                    for vid in assigned:
+                        bools.pop(vid, None)
+                v = bools.get(x2.get("vid"))
+                if v is None:
+                    continue
+                init = strip_casts(v["init"])
+                while isinstance(init, dict) and init.get("k") == "paren":
+                    init = strip_casts(init.get("e"))
+                if not isinstance(init, dict) or init.get("k") not in ("binop", "unop", "call"):
+                    continue
+                seen += 1
+                for b, tb in split_cond(init, tx):
+                    yield b, tb
+                    work.append((b, tb))
 
 
 def strip_casts(e):
